@@ -426,13 +426,35 @@ func (t *tracer) finish() uint64 {
 // goroutine of its own and the audio device played by this goroutine: it takes `burst` left samples,
 // then `burst` right samples, and so on (the emulator blocks on full queues meanwhile). Returns both
 // streams.
-func runWithConsumer(w workload, frames, chanCap, burst int, res *engine.Result) (ls, rs []float32, ok bool) {
+func runWithConsumer(w workload, frames, chanCap, burst int, evs []engine.Event, byDisplay bool, res *engine.Result) (ls, rs []float32, ok bool) {
 	w.Audio = true
+	if byDisplay {
+		w.Video = true
+	}
 	m := newFree(w, chanCap, res)
 	if m == nil {
 		return nil, nil, false
 	}
 	m.Ctx().CancelAtDoneCall = frames + 1
+	if byDisplay {
+		// the run is ended by the display asking to close after the last frame, not by the context
+		m.Ctx().CancelAtDoneCall = frames + 3
+		shown := 0
+		m.OnFrame = func(*image.RGBA) bool {
+			shown++
+			return shown >= frames
+		}
+	}
+	ei := 0
+	m.OnCycle = func() {
+		// the scheduler as the guest: register writes of the schedule (sound switched off and on, notes started)
+		for ei < len(evs) && evs[ei].At <= m.N {
+			if evs[ei].K == "bus_w" {
+				m.Write(evs[ei].A, evs[ei].V)
+			}
+			ei++
+		}
+	}
 	done := make(chan *machine.PanicInfo, 1)
 	go func() {
 		done <- machine.Protect(func() { m.RunReal() })
